@@ -180,7 +180,18 @@ def _check_main(ctx, rep: Report):
         else:
             after = body[calls[-1] + 1:]
             eff = [s for s in after if not (isinstance(s, ast.Return) and ast.unparse(s.value) == "self")]
-            before_ok = all(any(name in ast.unparse(s) for s in body[:calls[-1]]) for name in ("extractor", "mutate_value"))
+            # `mutate_value` may be reached through a private helper of the mutator called before the insertion
+            from .base import static_callees, with_private_callees
+            helper_names = {short_name_.split(".")[-1] for short_name_ in
+                            (g_.qualname.split(":")[-1] for _n, g_ in static_callees(ctx.p, fi))
+                            if short_name_.split(".")[-1].startswith("_")}
+            via_helper = {n_ for n_ in helper_names for g_ in with_private_callees(ctx.p, fi)
+                          if g_.qualname.split(":")[-1].split(".")[-1] == n_ and "mutate_value" in ast.unparse(g_.node)}
+
+            def mentions(s_, name):
+                t_ = ast.unparse(s_)
+                return name in t_ or (name == "mutate_value" and any(h_ + "(" in t_ for h_ in via_helper))
+            before_ok = all(any(mentions(s, name) for s in body[:calls[-1]]) for name in ("extractor", "mutate_value"))
             ok = not eff and before_ok
             detail = "" if ok else f"statements after the insertion: {[ast.unparse(s)[:40] for s in eff]}; extractor/mutate_value precede: {before_ok}"
     rep.oblige("C04.ORD", "CollectionAttrMutator._mutate_collection", ok, detail)
